@@ -57,6 +57,7 @@ type c33Plan struct {
 	SinkCall  map[[2]int]bool     // (cycle, k): the k-th sink.Write call of that polling cycle fails (whatever it carries)
 	RenewFail map[int]bool        // ordinal (1-based) of the RenewLease calls that fail
 	Blocked   map[[2]int]bool     // (cycle, partition): ClaimLease refused, the lease is held by another worker
+	LoudFrom  map[int32]int64     // partition -> base offset of a segment the real decoder rejects with an error (hostile record set): the partition is blocked there, which is allowed; completeness is only required below it
 	Excluded  map[string]bool     // known-finding ids this plan was steered away from
 	StickyF1  bool                // after a segment-level failure, fail the rest of the cycle (exclusion of the skip-failed-segment finding)
 }
@@ -106,7 +107,7 @@ func c33SegKey(part int32, base int64) string { return fmt.Sprintf("p%d/seg-%020
 
 func c33NewPlan(mod, store string) c33Plan {
 	return c33Plan{Mod: mod, Store: store, Faults: map[c33FaultKey]string{}, Lfs: map[[2]int64]bool{}, LfsFaults: map[[3]int64]string{},
-		SinkCall: map[[2]int]bool{}, RenewFail: map[int]bool{}, Blocked: map[[2]int]bool{}, Excluded: map[string]bool{}, Clean: 2}
+		SinkCall: map[[2]int]bool{}, RenewFail: map[int]bool{}, LoudFrom: map[int32]int64{}, Blocked: map[[2]int]bool{}, Excluded: map[string]bool{}, Clean: 2}
 }
 
 // c33GenPlan draws a plan. withLfs enables LFS envelopes (iceberg).
@@ -572,6 +573,9 @@ func (w *c33World) finish() []string {
 			continue
 		}
 		for o := s.Base; o < s.Base+int64(s.N); o++ {
+			if lf, ok := w.p.LoudFrom[held]; ok && o >= lf {
+				continue
+			}
 			if w.delivered[[2]int64{int64(held), o}] == 0 {
 				missing = append(missing, fmt.Sprint(o))
 			}
